@@ -139,8 +139,9 @@ NONNEG_CALLS = {'get_word', 'get_word3', 'get_dword', 'len', 'abs'}
 
 class Sign:
     """Flow-insensitive sign analysis: a name is non-negative if every assignment to it is."""
-    def __init__(self, fn):
+    def __init__(self, fn, const=None):
         self.fn = fn
+        self.const = const or (lambda name: None)          # value of a module-level constant, or None
         self.assigns = {}
         for n in ast.walk(fn):
             if isinstance(n, ast.Assign):
@@ -200,7 +201,22 @@ class Sign:
         if isinstance(e, ast.Constant):
             return isinstance(e.value, (int, float)) and e.value >= 0 or e.value is None or isinstance(e.value, (str, bytes))
         if isinstance(e, ast.Name):
-            return e.id in self.nonneg or e.id in ('data', 'True', 'False', 'None')
+            if e.id in self.nonneg or e.id in ('data', 'True', 'False', 'None'):
+                return True
+            if e.id not in self.assigns:
+                def nonneg_value(v):
+                    if isinstance(v, bool) or v is None or isinstance(v, (str, bytes)):
+                        return True
+                    if isinstance(v, (int, float)):
+                        return v >= 0
+                    if isinstance(v, (tuple, list)):
+                        return all(nonneg_value(x) for x in v)
+                    return False
+                v = self.const(e.id)
+                return v is not None and nonneg_value(v)
+            return False
+        if isinstance(e, ast.Starred):
+            return self.nn(e.value)
         if isinstance(e, ast.BinOp):
             if isinstance(e.op, (ast.Add, ast.Mult, ast.FloorDiv, ast.BitAnd, ast.BitOr, ast.BitXor, ast.RShift, ast.LShift)):
                 return self.nn(e.left) and self.nn(e.right)
@@ -291,7 +307,7 @@ def monotonic_rule(ctx, repo):
     # every TapeBlockTimings(...) argument is non-negative
     for fname in ('_get_tzx_block', '_get_pzx_block', '_get_tape_block_timings'):
         fn = mod.func(fname)
-        sg = Sign(fn)
+        sg = Sign(fn, lambda name: repo.const('tape', name))
         for p_ in fn.args.args:
             if p_.arg in ('pause', 'i', 'block_num', 'first_byte'):
                 sg.nonneg.add(p_.arg)
